@@ -225,6 +225,9 @@ pub enum LV {
     Node,
     /// discarded as a tree by `filter_entry`
     Tree,
+    /// matched by an alternative of a `not` that reports `is_exhaustive() == Always`: the
+    /// documentation promises that the tree is not read ("it matches an exhaustive negation")
+    NotTree,
     /// matched by a `not` whose pattern also matches everything U feeds beneath (pruning allowed)
     NotMay,
     /// matched by a `not`, but something beneath does not match (pruning would lose it)
@@ -266,10 +269,22 @@ pub fn expect(layers: &[Layer], u: &UFeed, cwd_unused: &str) -> Result<Expect, H
             ),
             Layer::Not(pf) => {
                 let ms = reference_matches(pf, &rels).map_err(HarnessError)?;
+                // alternatives that claim to be always exhaustive (public query)
+                let always: Vec<wax::Glob> = pf
+                    .texts()
+                    .iter()
+                    .filter_map(|t| wax::Glob::new(t).ok().map(|g| g.into_owned()))
+                    .filter(|g| matches!(wax::Program::is_exhaustive(g), wax::query::When::Always))
+                    .collect();
                 let mut col = Vec::with_capacity(n);
                 for j in 0..n {
                     if !ms[j] {
                         col.push(LV::Keep);
+                    }
+                    else if always.iter().any(|g| wax::Program::is_match(g, rels[j].as_str()))
+                        && (0..n).all(|k| !below(k, j) || ms[k])
+                    {
+                        col.push(LV::NotTree);
                     }
                     else if (0..n).all(|k| !below(k, j) || ms[k]) {
                         col.push(LV::NotMay);
@@ -289,7 +304,7 @@ pub fn expect(layers: &[Layer], u: &UFeed, cwd_unused: &str) -> Result<Expect, H
         if !u.entries[d].is_dir {
             continue;
         }
-        let dead = lv.iter().any(|col| col[d] == LV::Tree);
+        let dead = lv.iter().any(|col| col[d] == LV::Tree || col[d] == LV::NotTree);
         let may = lv.iter().any(|col| col[d] == LV::NotMay);
         if dead || may {
             let mut any_child = false;
@@ -401,7 +416,7 @@ pub fn discard_probes(layers: &[Layer], u: &UFeed, ex: &Expect, out: &mut Outcom
     let n = u.entries.len();
     for d in 0..n {
         let e = &u.entries[d];
-        let trees = ex.lv.iter().filter(|col| col[d] == LV::Tree).count();
+        let trees = ex.lv.iter().filter(|col| col[d] == LV::Tree || col[d] == LV::NotTree).count();
         let nodes = ex.lv.iter().filter(|col| col[d] == LV::Node).count();
         if trees == 0 && nodes == 0 {
             continue;
@@ -435,7 +450,7 @@ pub fn discard_probes(layers: &[Layer], u: &UFeed, ex: &Expect, out: &mut Outcom
             }
         }
         if trees > 0 && nodes > 0 {
-            let first_tree = ex.lv.iter().position(|col| col[d] == LV::Tree).unwrap();
+            let first_tree = ex.lv.iter().position(|col| col[d] == LV::Tree || col[d] == LV::NotTree).unwrap();
             let first_node = ex.lv.iter().position(|col| col[d] == LV::Node).unwrap();
             out.probe(if first_node < first_tree { "file-then-tree" } else { "tree-then-file" });
         }
@@ -445,6 +460,9 @@ pub fn discard_probes(layers: &[Layer], u: &UFeed, ex: &Expect, out: &mut Outcom
     }
     if ex.lv.iter().flatten().any(|v| *v == LV::NotMay) {
         out.probe("not:exhaustive-match-possible");
+    }
+    if ex.lv.iter().flatten().any(|v| *v == LV::NotTree) {
+        out.probe("not:always-exhaustive-alternative-matched");
     }
     if ex.lv.iter().flatten().any(|v| *v == LV::NotNode) {
         out.probe("not:non-exhaustive-match-of-directory");
